@@ -57,6 +57,8 @@ func main() {
 	if !ok {
 		usage()
 	}
+	vlib.CleanupOnSignal()
+	os.Setenv("VERIF_TIER_RUNNING", tier) // inherited by the workers: decides where scratch directories go (vlib.ScratchBase)
 	c := vlib.NewCtx(id, tier, ck.Level)
 	c.ReplayFile = replay
 	if replay != "" && !ownReplay[id] {
